@@ -17,6 +17,19 @@ CLAIMS = {
  "C04": ("Address clause of Policy.tla (ClientAddr, first X-Forwarded-For element, switch) model-checked over 1 664 (issue, present) pairs (MC_PolicyAddr); tokens minted via the "
          "real /connect flow from one address and presented from another (real loopback peers 127.0.0.1/127.0.0.2/::1 and forwarded-for chains); TLC judges each step.", "DESIGN.md §4 C04",
          "TLC-enumerated address pairs replayed on the real gateway; TLC trace validation"),
+ "C02": ("Tokens.tla acceptance rule model-checked as a mint/tick/revoke/forge/present system (MC_Tokens); every forged-cookie class replayed through real TUNNEL_CREATE exchanges on both transports and "
+         "the cookie universe (all single-character substitutions and bit flips of a minted token, ladders around the leeway, IdP conditions, random strings) presented to the real CheckPAACookie; TLC judges every presentation.",
+         "DESIGN.md §4 C02", "TLC design check of symbolic tokens; forged cookies replayed on the real gateway and the exported check; TLC trace validation"),
+ "C06": ("Relay.tla (both directions, declared vs carried lengths, liveness) model-checked; every environment action sequence of its state graph replayed on an open channel of the real binary with "
+         "boundary payload sizes over both transports; host-side bytes and client-side DATA packets compared with PRNG streams; TLC judges each action (RelayTrace).", "DESIGN.md §4 C06",
+         "TLC design check of the relay; model-generated interleavings replayed on the real gateway; TLC trace validation"),
+ "C08": ("Framing.tla model-checked for every stream x every read segmentation within bounds; an 8-packet session cut at every header-relevant offset, every coalescing run, whole-stream reads, >4 KiB packets, "
+         "random multi-cuts and malformed/never-completed length fields on ws messages, ws continuation frames, HTTP chunks and chunks split over TCP writes; actual read sizes from the tr.read hook; "
+         "TLC compares accepted packets, responses and host bytes with the uncut run (FramingTrace).", "DESIGN.md §4 C08",
+         "TLC design check of framing; segmentations replayed on the real gateway; TLC trace validation"),
+ "C15": ("Tokens!TokenInfoStatus model-checked over the attribute product (MC_UserTok); minted tokens, every single-character mutation of the five JWE segments, forged tokens from the harness's own JWE writer "
+         "(other keys/algs/issuers, expired, plain JWS, cross-mode) and random strings sent to the real /tokeninfo handler and security.UserInfo in both key modes; TLC judges each request.", "DESIGN.md §4 C15",
+         "TLC design check; token universe presented to the real handler; TLC trace validation"),
  "C16": ("TSGU.tla response/redirect/idle operators model-checked (MC_Redir: 128 switch sets x idle classes); one real gateway instance per configuration, 8 request outcomes each; "
          "raw responses decoded by an independent MS-TSGU decoder; field-level guards G_C16_* evaluated by TLC per response.", "DESIGN.md §4 C16",
          "TLC design check of flag encoding; configuration sweep on the real binary; TLC trace validation"),
